@@ -4,14 +4,20 @@ from vlib.core import Case
 
 ID = "C08"
 LEAN_MODULE = "Ctrmml.Properties.C08"
-THEOREMS = ["C08_delay_encoding", "C08_no_overflow", "C08_stream_parses", "C08_ctor_header"]
+THEOREMS = ["C08_delay_encoding", "C08_no_overflow", "C08_no_indeterminate_byte", "C08_eof_offset", "C08_stream_parses",
+            "C08_sample_total_header", "C08_gd3_offset", "C08_loop_consistent", "C08_gd3_eleven_strings", "C08_clocks_declared",
+            "C08_pcm_stream_in_block"]
 LEVEL = "proof"
 STREAM = "vgmw.ops+vgmsong"
 CHUNK = 40
 CASE_SECONDS = 30
 # realloc growth must be observable: ASan fills every fresh allocation completely with 0xbe
+_ROOT = os.path.dirname(os.path.dirname(os.path.abspath(__file__)))
+TMPDIR = os.path.join(_ROOT, "build", "tmp")
+WAVDIR = os.path.join(_ROOT, "build", "c08_wav")
 ENV = {"ASAN_OPTIONS": "detect_leaks=0:abort_on_error=0:exitcode=99:allocator_may_return_null=0:"
-                       "max_malloc_fill_size=1073741824:malloc_fill_byte=190"}
+                       "max_malloc_fill_size=1073741824:malloc_fill_byte=190",
+       "VERIF_TMPDIR": TMPDIR}
 
 INITIAL_ALLOC = None
 
@@ -242,8 +248,53 @@ MML_SONGS = [
 ]
 
 
-def song_req(flag, fields, mml):
-    return "vgmsong %s %s %s" % (flag, tagtok(fields), mml.encode().hex())
+def song_req(flag, fields, mml, samples=None):
+    r = "vgmsong %s %s %s" % (flag, tagtok(fields), mml.encode().hex())
+    if samples:
+        r += " P," + ",".join(x.hex() for x in samples)
+    return r
+
+
+def write_wav(data8, bits, rate):
+    """a tiny canonical mono WAV under build/c08_wav; returns (path, expected 8-bit unsigned sample bytes)"""
+    import hashlib
+    os.makedirs(WAVDIR, exist_ok=True)
+    if bits == 8:
+        payload = bytes(data8)
+    else:
+        # 16-bit signed: high byte = data8 ^ 0x80, low byte arbitrary but deterministic
+        payload = b"".join(bytes([(37 * i) & 0xff, d ^ 0x80]) for i, d in enumerate(data8))
+    fmt = struct.pack("<HHIIHH", 1, 1, rate, rate * bits // 8, bits // 8, bits)
+    body = b"WAVE" + b"fmt " + struct.pack("<I", len(fmt)) + fmt + b"data" + struct.pack("<I", len(payload)) + payload
+    if len(payload) % 2:
+        body += b"\0"
+    blob = b"RIFF" + struct.pack("<I", len(body)) + body
+    name = os.path.join(WAVDIR, "s%s_%d_%d.wav" % (hashlib.sha1(blob).hexdigest()[:12], bits, rate))
+    if not os.path.exists(name):
+        tmp = name + ".%d.tmp" % os.getpid()
+        with open(tmp, "wb") as f:
+            f.write(blob)
+        os.replace(tmp, name)
+    return name, bytes(data8)
+
+
+def pcm_song(rng, quick):
+    """a song whose F track plays PCM instruments; returns (mml, expected sample byte strings)"""
+    nins = rng.choice([1, 1, 2, 3])
+    lines, samples, ids = [], [], []
+    for i in range(nins):
+        n = rng.choice([1, 2, 3, 17, 64, 255, 256, 257, 1000] if quick else [1, 2, 3, 17, 64, 255, 256, 257, 1000, 4000, 20000])
+        data = [rng.randrange(256) for _ in range(n)]
+        path, exp = write_wav(data, rng.choice([8, 16]), rng.choice([8000, 11025, 17500]))
+        # sample paths are resolved relative to the MML file, which the harness writes to build/tmp
+        lines.append('@%d pcm "../c08_wav/%s"' % (30 + i, os.path.basename(path)))
+        samples.append(exp)
+        ids.append(30 + i)
+    notes = " ".join("@%d %s%d" % (rng.choice(ids), rng.choice("cdefgab") if rng.random() < 0.8 else "r", rng.choice([4, 8, 16])) for _ in range(rng.randrange(1, 12)))
+    body = "F o4 t%d %s%s\n" % (rng.choice([100, 150]), "L " if rng.random() < 0.4 else "", "@%d c8 " % ids[0] + notes)
+    if rng.random() < 0.5:
+        body += "A o4 l8 " + " ".join(rng.choice("cdefgab") for _ in range(rng.randrange(1, 10))) + "\n"
+    return "\n".join(lines) + "\n" + body, samples
 
 
 def cases(rng, tier):
@@ -309,6 +360,10 @@ def cases(rng, tier):
         for tf in ([["-"] * 11, ["-"] * 9 + [hx("prog only"), "-"], [hx("Title"), hx("タイトル"), hx("Game"), "-", hx("Mega Drive"), "-", hx("me"), "-", hx("2020"), hx("prog"), hx("note")]] +
                    ([] if quick else [["300*61"] + ["-"] * 10, ["256*e38182"] * 11])):
             yield Case(song_req(flag, tf, mml), sorted({"song", "loop" if flag == "L" else "no-loop"} | tag_tags(tf)), "song")
+    for i in range(10 if quick else 60):
+        mml, samples = pcm_song(rng, quick)
+        fields = [x if "*" not in x or int(x.split("*")[0]) < 300 else "-" for x in rand_tag_fields(rng)]
+        yield Case(song_req("?", fields, mml, samples), sorted({"song", "pcm-song", "pcm-stream"} | tag_tags(fields)), "song-pcm")
     ns = 12 if quick else 80
     for i in range(ns):
         notes = "cdefgab"
@@ -339,7 +394,7 @@ def finding_key(case, impl, judge):
     j = judge
     for pat, key in ((r"GD3 strings not terminated|GD3 length|GD3 holds|GD3 magic", "gd3-strings"), (r"does not render", "gd3-tag-text"),
                      (r"loop", "loop"), (r"eof offset", "eof"), (r"GD3 offset", "gd3-offset"), (r"total", "sample-total"),
-                     (r"clock", "clock"), (r"stream \d+\+\d+ outside|length mode", "pcm-stream"), (r"command stream differs|does not parse", "stream"),
+                     (r"clock", "clock"), (r"stream start|length mode", "pcm-stream"), (r"command stream differs|does not parse", "stream"),
                      (r"data block payload", "datablock"), (r"undefined behaviour", "ub"), (r"range_error", "range-error")):
         if re.search(pat, j):
             return key
@@ -379,13 +434,17 @@ ASSUMPTIONS = ["delays are integers below 2^31 samples per flush (vgm_export cap
                "realloc never fails (bad_alloc is not modelled)",
                "date and notes defaults (wall clock, build stamp) are inputs of the model; the harness canonicalises them by shape"]
 TECHNIQUE = "Lean 4 proof (invariant over writer operation sequences, parser prefix lemmas) + differential correspondence model<->vgm.cpp + spec oracle on exported bytes"
-LEVEL_TEXT = ("Machine-checked theorems over a Lean model of vgm.cpp, for ALL inputs: (no_overflow) no sequence of public VGM_Writer operations "
-              "with any arguments stores outside the allocation; (delay_encoding) every delay is encoded by 61/7n waits summing to it; "
-              "(stream_parses, sample_total, determinacy up to stop) after any exporter operation sequence and stop the buffer is header ++ stream "
-              "++ 66 with every cell determinate, the VGM 1.61 reader of Spec/VgmParse consumes the stream exactly to the end marker and the "
-              "sample count equals the sum of the waits = the sum of the delays. The remaining clauses (EOF/GD3 offsets, header fields after "
-              "poke, loop offset/length, eleven GD3 strings = tags, clocks, PCM stream ranges) are stated in C08_full_statement and are decided "
-              "per case by the spec oracle on the real bytes (writer-level operation sequences and whole-song exports), not by a theorem.")
+LEVEL_TEXT = ("Machine-checked theorems over a Lean model of vgm.cpp, for ALL exporter operation sequences (caller header pokes; any PSG/YM2612 "
+              "writes, delays, loop points anywhere incl. sample 0, stream data blocks, DAC stream setup/start/stop; stop; write_tag with any "
+              "decodable tags; get_buffer): no store leaves the allocation (for every op sequence whatsoever); the export always returns a buffer "
+              "with no indeterminate cell; magic and EOF offset exact; the VGM 1.61 reader of Spec/VgmParse consumes the stream from the data "
+              "offset exactly to the end marker and reads exactly the expected command list; header total = sum of waits = sum of delays; GD3 "
+              "offset addresses the byte after the end marker; loop offset is a command boundary with exactly D samples before it and header "
+              "0x20 = total - D (both fields zero without loop point); the GD3 block is exact and splits into exactly eleven terminated UTF-16 "
+              "strings = the decoded tags cut at 256 units; declared clocks survive into the final header for every chip command; every stream "
+              "start addresses bytes of the type-0 data blocks written before it.")
 LEVEL_NOTE = ("Trusted: Lean kernel, the hand-written model Model/Vgm.lean (agreement with vgm.cpp by differential testing under ASan with "
-              "every fresh heap byte filled, zero differences), Spec/VgmParse.lean, integer delays, g++/ASan/UBSan and the harness. Partial: "
-              "header-field, loop, GD3-string, clock and PCM clauses rest on the spec oracle over generated cases, not on proof.")
+              "every fresh heap byte filled, zero differences), Spec/VgmParse.lean, integer delays < 2^31, file < 4 GiB for the 32-bit offset "
+              "clauses, g++/ASan/UBSan and the harness. The GD3 strings are tied to the tags through the model's UTF-8 decoder; that it inverts "
+              "the reader-side encoder, and the clock / PCM clauses at song level (MD_Driver passes the right pokes and sample windows), rest on "
+              "the spec oracle applied to whole-song exports (incl. PCM instruments), not on a theorem.")
